@@ -165,11 +165,10 @@ class Gen:
         return {"left": av.name, "lcal": cs, "op": op, "right": None, "rcal": False, "value": lit}
 
     def gen_group(self, avail, kind, depth):
-        conds = [self.gen_cond(avail) for _ in range(self.draw(st.integers(1, 3)))]
-        subs = []
-        if depth > 0:
-            for _ in range(self.draw(st.integers(0, 2))):
-                subs.append(self.gen_group(avail, "or" if kind == "and" else "and", depth - 1))
+        nsubs = self.draw(st.integers(0, 2)) if depth > 0 else 0
+        # a group may consist of nested groups only, e.g. (a and b) or (c and d)
+        conds = [self.gen_cond(avail) for _ in range(self.draw(st.integers(0 if nsubs else 1, 3)))]
+        subs = [self.gen_group(avail, "or" if kind == "and" else "and", depth - 1) for _ in range(nsubs)]
         return {"t": kind, "conds": conds, "subs": subs}
 
     def gen_match(self, avail, forms=None):
@@ -483,6 +482,18 @@ class Gen:
                                         "abstract": False, "short": None, "long": None})
         else:
             self.subtree(root_name, avail + root_fields, 0, [])
+        if self.chance(self.p.get("wrapper", 0.2)):
+            # an alternative root that is never reached from the root: it uses a container of the main tree (one
+            # that has inheritors, or the root itself) by reference; wherever it stands in the document, decoding
+            # from the root is unaffected
+            bases = sorted({c["base"] for c in self.containers if c.get("base")} | {root_name})
+            target = d(st.sampled_from(bases))
+            wentries = [["c", target]]
+            if self.chance(0.5):
+                wentries.append(["p", d(st.sampled_from([p["name"] for p in self.params]))])
+            self.containers.insert(d(st.integers(0, len(self.containers))),
+                                   {"name": self.fresh("W"), "entries": wentries, "base": None, "match": None,
+                                    "abstract": False, "short": None, "long": self.text()})
         # order of the container set is free: sometimes list children before parents / nested after users
         order = d(st.sampled_from(["as-built", "reversed", "root-first"]))
         conts = list(self.containers)
